@@ -23,6 +23,9 @@ func (f InverterFrequencyFactoryType) New(v uint8) (InverterFrequency, error) {
 }
 
 func (f InverterFrequencyFactoryType) NewEnum(v int) (Enum, error) {
+	if v < 0 || v > 255 {
+		return nil, ErrInvalidEnumIdx
+	}
 	return f.New(uint8(v))
 }
 
